@@ -8,6 +8,7 @@ type scope struct {
 	outer           *scope
 	declarationList []ast.Declaration
 	labels          []string
+	continues       []*ast.BranchStatement // labelled continue statements whose target is still being parsed
 	allowIn         bool
 	inIteration     bool
 	inSwitch        bool
